@@ -271,7 +271,7 @@ def run(ctx: Ctx):
         raise HarnessError("mount namespaces (unshare -m) are not available: cannot build the jail for runner.sh")
     ctx.assumptions = ["the real tools are replaced by stubs that log, fail on demand and emulate only the files the scripts look at",
                        "xrdcp destinations are not exercised", "one jail = one container: invocations of a history share the working directory"]
-    total = ctx.n(192, 9600)
+    total = ctx.n(512, 9600)
     shards = 16
     payloads = []
     for i in range(shards):
